@@ -21,4 +21,6 @@ StrongHalf(pw) == 2 * pw >= SumP(H \cup B)
 StrongMinusOne(pw) == pw >= DivCeil(2 * SumP(H \cup B), 3) - 16383
 JOKNoPower(ph, r, v) == TRUE
 ConvOkAlways(fc, v) == TRUE
+ConvAdmitNoPrepare(r, fc, v) == CouldReach(fc, v, TRUE)     \* the PREPARE-quorum requirement of the CONVERGE filter dropped
+Chains3x == {<<0>>, <<0, 1>>, <<0, 2>>, <<0, 5>>}           \* <<0, 5>>: right base, proposed by no honest participant
 ====
